@@ -20,6 +20,7 @@ structure St where
   bm : Std.HashMap String BSet := {}          -- 32-bit bitmaps
   bm64 : Std.HashMap String BSet := {}        -- 64-bit bitmaps
   it : Std.HashMap String IterSt := {}
+  it64 : Std.HashMap String IterSt := {}      -- roaring64 iterators (own namespace on the Go side too)
   bsi : Std.HashMap String BsiSt := {}
   bufLen : Std.HashMap String Nat := {}       -- byte buffers known only by length
   deriving Inhabited
